@@ -251,10 +251,108 @@ func c06Broken(c *core.Ctx, idx int) {
 	}
 }
 
+// c06Semantic: programs that are invalid for a reason the grammar tables do not see.
+//  (1) PHP 5 family: a statement PHP rejects at compile time and this parser reports from its grammar
+//      actions (a trait with extends / implements, a foreach whose key is taken by reference), inserted
+//      at a top-level statement boundary of a valid PHP-mode program;
+//  (2) both families: the closing label of the LAST heredoc/nowdoc of a valid program lengthened by one
+//      label character — the label never occurs again, so the string is never closed.
+// Both must deliver at least one error; the error-shape, callback and silent-parse monitors run as usual.
+var c06Semantic5 = [][]string{
+	{"trait", "Tq1", "extends", "Bq", "{", "}"},
+	{"trait", "Tq2", "implements", "Iq", "{", "}"},
+	{"trait", "Tq3", "implements", "Iq", ",", "Jq", "{", "}"},
+	{"trait", "Tq4", "extends", "Bq", "implements", "Iq", "{", "}"},
+	{"foreach", "(", "$aq", "as", "&", "$kq", "=>", "$vq", ")", "{", "}"},
+	{"foreach", "(", "$aq", "as", "&", "$kq", "=>", "&", "$vq", ")", ";"},
+	{"foreach", "(", "fq", "(", ")", "as", "&", "$kq", "=>", "$vq", ")", "{", "}"},
+	{"foreach", "(", "$aq", "as", "&", "$kq", "=>", "$vq", ")", ":", "endforeach", ";"},
+}
+
+func c06Semantic(c *core.Ctx, idx int) {
+	r := core.NewRand(c.P.Seed, "C06sem", idx)
+	var src []byte
+	var ver, edit string
+	fam := 5
+	if idx%4 == 1 {
+		g := gen.NewG(r.Split("prog"), gen.Opts{Fam: 5, NoHTML: true, MaxDepth: r.Range(2, 4), MaxStmts: 5})
+		root := g.Program()
+		ver = progVersion(r, 5, false)
+		toks := root.Tokens()
+		var bnd []int
+		for _, s := range gen.ListSites(root) {
+			if s.Kind == "Root" {
+				bnd = s.Boundaries
+			}
+		}
+		if len(bnd) == 0 {
+			c.Inconclusive("program without top-level statement boundary")
+			return
+		}
+		j := bnd[r.Intn(len(bnd))]
+		m := c06Semantic5[r.Intn(len(c06Semantic5))]
+		var mt []gen.Tok
+		for _, s := range m {
+			mt = append(mt, gen.Tok{S: s})
+		}
+		bt := append(append(append([]gen.Tok{}, toks[:j]...), mt...), toks[j:]...)
+		edit = "php5-semantic:" + m[0] + "-" + m[2]
+		if m[0] == "foreach" {
+			edit = "php5-semantic:foreach-reference-key"
+		}
+		src = gen.Render(bt, []int{gen.LayCanon, gen.LayMinimal, gen.LayLF, gen.LayCRLF, gen.LayMixed}[r.Intn(5)], r.Split("lay"), nil)
+	} else {
+		if r.Chance(3, 5) {
+			fam = 7
+		}
+		var toks []gen.Tok
+		open := -1
+		for try := 0; try < 30 && open < 0; try++ {
+			pc := makeProgram(r.Split(fmt.Sprint("p", try)), fam, false, 6)
+			toks, ver = pc.root.Tokens(), pc.ver
+			for i, tk := range toks {
+				if strings.HasPrefix(tk.S, "<<<") {
+					open = i
+				}
+			}
+		}
+		if open < 0 {
+			c.Inconclusive("no program with a heredoc found")
+			return
+		}
+		label := strings.Trim(strings.TrimLeft(gen.PlainTok(toks[open].S), "<"), "'\"\r\n")
+		cl := -1
+		for i := open + 1; i < len(toks); i++ {
+			if toks[i].S == label {
+				cl = i
+				break
+			}
+		}
+		if cl < 0 {
+			core.Fail("C06: closing label %q of the heredoc opener %q not found in the token stream", label, toks[open].S)
+		}
+		bt := append([]gen.Tok{}, toks...)
+		bt[cl].S = label + r.Pick("1", "x", "_", "9", "Z", "\xc3\x89")
+		edit = "lengthen-last-heredoc-closing-label"
+		src = gen.Render(bt, []int{gen.LayCanon, gen.LayLF, gen.LayCRLF, gen.LayMixed}[r.Intn(4)], r.Split("lay"), nil)
+	}
+	nerr, _ := c06Input(c, src, ver)
+	c.Add("broken_programs_parsed", 1)
+	c.Cover("edits", edit)
+	if nerr == 0 {
+		if pr := obs.Parse(src, ver, true); pr.Panic != nil {
+			return
+		}
+		c.Violation(fmt.Sprintf("swallowed|fam%d|%s", fam, edit), fmt.Sprintf("a program made invalid by the edit %q was parsed under %s without any error", edit, ver), core.W(src, ver).With("edit", edit))
+		return
+	}
+	c.NonTrivial(src, []byte(ver))
+}
+
 func init() {
 	core.Register(&core.Check{
 		ID:   "C06",
-		Rule: "cases = known-finding witnesses ++ alternately (a) a generated valid program with 6 (quick) / 20 (thorough) independent guaranteed-breaking edits {insert unmatched closer/opener, delete one bracket, truncate after an operator, insert the operator pair '* /', append a stray quote} in PRNG layouts: >= 1 error required, and (b) a hostile G3 input; for every parse: shape of every delivered error, callback-vs-nil tree equality, (for a third of the inputs with errors) a nested parse run from inside the callback, and for silent parses non-nil tree + tiling + print-back; non-trivial = program whose every broken variant was reported / hostile input that delivered an error; distinct by expected structure / input bytes",
+		Rule: "cases = known-finding witnesses ++ alternately (a) a generated valid program with 6 (quick) / 20 (thorough) independent guaranteed-breaking edits {insert unmatched closer/opener, delete one bracket, truncate after an operator, insert the operator pair '* /', append a stray quote} in PRNG layouts: >= 1 error required, (a') a valid program with a PHP 5 compile-time error reported by the grammar actions (trait with extends/implements, foreach key by reference) inserted at a top-level boundary, or with the closing label of its last heredoc lengthened: >= 1 error required, and (b) a hostile G3 input; for every parse: shape of every delivered error, callback-vs-nil tree equality, (for a third of the inputs with errors) a nested parse run from inside the callback, and for silent parses non-nil tree + tiling + print-back; non-trivial = program whose every broken variant was reported / hostile input that delivered an error; distinct by expected structure / input bytes",
 		Assumptions: []string{
 			"'invalid' is only asserted for edits that are invalid by a counting argument (brackets balance in every valid program; no valid program ends in an operator; no grammar allows '* /')",
 			"an error message of the form unexpected 'X' names a single-character token whose text must be selected by the span; the close tag is delivered as ';'",
@@ -263,6 +361,10 @@ func init() {
 		Run: func(c *core.Ctx, idx int) {
 			if idx%2 == 0 {
 				c06Broken(c, idx)
+				return
+			}
+			if idx%8 == 1 || idx%8 == 5 {
+				c06Semantic(c, idx)
 				return
 			}
 			pc := genParseCase(c.P.Seed, "C06h", idx, 85)
